@@ -1,19 +1,20 @@
 check("C14", "model_checking",
       "SyltSurface (TLA+) defines the surface sites of a core program (call form paren/prime/arrow/arrow-prime, `ret e` vs trailing expression, "
       "`loop do` vs `loop true do`, 0-2 redundant parentheses per expression, comment and blank-line points per statement, and inside every bracket-like construct - list, tuple, "
-      "paren and prime argument lists, grouping parentheses, blob literal, blob/enum declaration, `from .. use (..)` list, multi-line conditions - "
+      "paren and prime argument lists, grouping parentheses, blob literal, blob/enum declaration, `from .. use (..)` list, multi-line conditions, function-literal signatures and the end of the signature line - "
       "a line break at each gap with every interleaving of comment line / blank line / end-of-line comment of length <= 3, indentation width or tab), when a choice is legal (from the token that follows the call: a prime call "
-      "swallows everything up to a closer, the right side of `->` must be a whole call, `->` needs a primary on its left and a first argument) and a "
+      "swallows everything up to a closer, the right side of `->` must be a whole call, `->` needs a primary on its left and a first argument; every callee takes both forms, a prime "
+      "after a non-name callee only at the lowest precedence level) and a "
       "token-level model with a reference parser that follows sylt-parser. TLC checks Desugar(Parse(Render(core, choice))) = core for every legal and "
       "'other tree or syntax error' for every illegal raw choice of the call skeletons, and the real parser's tree of every such rendering is compared "
       "with the reference parser's by TLC (so the legality rule is validated, in both directions, against the real grammar). TLC then enumerates the "
-      "variant universe of every program (16 skeletons, the shared prelude, SyltGen's pairwise-nesting universe): all legal choice functions "
+      "variant universe of every program (19 skeletons, the shared prelude, SyltGen's pairwise-nesting universe): all legal choice functions "
       "over <= 6 sugar sites, every site toggled, uniform/strided/mixed patterns; every variant is compiled and TLC validates the recorded results "
       "(coverage of the re-derived universe, legality of every recorded choice, accepted, same parser tree, same Lua bytes; the `<!>` line number is "
       "masked only for variants that move lines). Bounded: quick samples every 64th nesting pair; thorough takes all ~3000 expressions.",
       "Trusted: TLC, SyltSurface's site/legality definitions, surface.rs (renderer; strict: a choice it cannot honour is a tool error; the plain "
-      "rendering is checked to be byte-identical with printer.rs), astdump, FNV digests. Not offered (said in the evidence): sugar for callees that "
-      "are not names/field accesses, `->` with a callee containing a function literal, parentheses around function literals / std names / "
-      "assignment targets, line breaks outside brackets.",
+      "rendering is checked to be byte-identical with printer.rs), astdump, FNV digests. Not offered (said in the evidence): `->` where callee and first "
+      "argument both contain a function literal, parentheses inside assignment targets, line breaks outside newline-skipping constructs. "
+      "Open known finding: parentheses around a blob field's function literal lose `self`.",
       "TLA+ sugar/layout spec with token-level reference parser; TLC-enumerated variants replayed into parser and compiler; TLC validation of the records",
       "DESIGN.md 5.3, 8/C14")
